@@ -61,7 +61,11 @@ func TestC19Wiring(t *testing.T) {
 			for _, name := range names {
 				rep.Executions++
 				rep.States++
+				rep.Transitions++
 				rep.Nontrivial++
+				if rep.Executions%211 == 1 {
+					rep.Sample(map[string]interface{}{"tags": list, "group_by": gb, "name": name}, 4)
+				}
 				want := "" // the default tag
 				for _, p := range list {
 					if regexp.MustCompile(p).MatchString(name) {
